@@ -5,6 +5,7 @@ import (
 	"go/constant"
 	"go/token"
 	"go/types"
+	"sort"
 	"strings"
 
 	"golang.org/x/tools/go/ssa"
@@ -22,6 +23,7 @@ func init() {
 			"O4 FilterIter returns true only on the true edge of its predicate applied to the value just read from the inner Val() and stored in the field Val() returns; MapIter stores f(inner.Val()) into the field Val() returns on every path to 'return true'; " +
 			"O5 SliceIter: constructor start index and the order increment/read in Next agree ((-1, increment first) or (0, read first)), increment by exactly 1, element read guarded by index<len; " +
 			"O6 JSONIter: Decode only where done is false, io.EOF ends the iteration (return false, done set), a decode error sets done, Close sets done and closes the reader when it is an io.Closer. " +
+			"All rules are evaluated over Next and the functions it calls in its package: same-receiver helper methods (facts about their bool results are derived from their bodies), methods of a plain state struct held in a field of the wrapper (counter/limit kept in a nested struct), and for O6 the Decode error / decoded value are followed through results, parameters and receiver field paths written in one method and read in another. " +
 			"NOT decided: value-level list equalities (runtime values), behaviour of json.Decoder, goroutine safety.",
 		Assume:    []string{"inner iterators honour the Iter contract (Val is only meaningful after Next returned true)", "function-typed fields f are only called, never reassigned after construction"},
 		Technique: "SSA path rules: sibling sweep over Iter implementers (R-SIB), normalised comparison on guarding edges (R-CMP), edge dominance (R-DOM), value provenance (R-FLOW), constructor/step constant agreement (R-CONST)",
@@ -55,7 +57,14 @@ type c43Type struct {
 	inner            []string // fields of Iter-shaped interface type
 	bools, ints      []string
 	funcs            []string
+	// integer fields of package-local plain struct types held in a field of the
+	// wrapper (by value or pointer): slot "via.name"
+	nints  []string
+	nested map[string]*types.Named // via -> struct type
 }
+
+// limited: the wrapper carries integer state (directly or in a nested struct).
+func (t c43Type) limited() bool { return len(t.ints)+len(t.nints) > 0 }
 
 func c43Discover(c *an.Ctx, rel string) []c43Type {
 	var out []c43Type
@@ -89,6 +98,28 @@ func c43Discover(c *an.Ctx, rel string) []c43Type {
 				}
 			case *types.Signature:
 				t.funcs = append(t.funcs, f.Name())
+			case *types.Struct, *types.Pointer:
+				ft := f.Type()
+				if pt, ok := u.(*types.Pointer); ok {
+					ft = pt.Elem()
+				}
+				nn, ok := ft.(*types.Named)
+				if !ok || nn.Obj().Pkg() == nil || nn.Obj().Pkg() != n.Obj().Pkg() || nn.TypeParams().Len() > 0 {
+					break
+				}
+				ns, ok := nn.Underlying().(*types.Struct)
+				if !ok {
+					break
+				}
+				for k := 0; k < ns.NumFields(); k++ {
+					if b, ok := ns.Field(k).Type().Underlying().(*types.Basic); ok && b.Info()&types.IsInteger != 0 {
+						t.nints = append(t.nints, f.Name()+"."+ns.Field(k).Name())
+						if t.nested == nil {
+							t.nested = map[string]*types.Named{}
+						}
+						t.nested[f.Name()] = nn
+					}
+				}
 			}
 		}
 		out = append(out, t)
@@ -250,7 +281,7 @@ func runC43(c *an.Ctx) {
 	c.Min("O1 wrapper types with an inner Iter field", nO1, 1)
 
 	// ---- wrappers of package iter: yield discipline (O2/O3), reasoned through same-receiver helper methods
-	nWrap := 0
+	nWrap, nLim := 0, 0
 	engs := map[string]*c43Eng{}
 	for _, t := range all {
 		if t.named.Obj().Pkg().Path() != an.Mod+"/"+c43Pkg || len(t.inner) != 1 {
@@ -263,11 +294,13 @@ func runC43(c *an.Ctx) {
 		}
 		engs[t.named.Obj().Name()] = e
 		e.checkYield()
-		if len(t.ints) > 0 {
+		if t.limited() {
+			nLim++
 			e.checkLimit()
 		}
 	}
 	c.Min("wrapper types of package iter (Limit, Filter, Map)", nWrap, 1)
+	c.Min("O2 wrapper types with integer counter/limit state (Limit)", nLim, 1)
 
 	// ---- O4: Filter / Map value discipline
 	nO4 := 0
@@ -579,200 +612,637 @@ func p43Ctors(c *an.Ctx, t c43Type) []*ssa.Function {
 	return out
 }
 
+// ---- O6: the JSON iterator, reasoned inter-procedurally over the functions
+// Next() calls in its package: same-receiver methods (decode(), settle(err)) and
+// plain functions (readOne(dec)). The Decode error and the decoded value are
+// followed ("holders") through results, arguments -> parameters, and receiver
+// field paths (j.res.Err written in one method, read in another).
+
+// c43Hold tracks, per function, which SSA values and which receiver field paths
+// hold one particular dynamic value (the error / the destination of the Decode of
+// this activation of Next).
+type c43Hold struct {
+	js    *c43JS
+	seed  map[*ssa.Function][]ssa.Value
+	vals  map[*ssa.Function]map[ssa.Value]bool
+	entry map[*ssa.Function]map[string]bool // receiver paths holding the value at entry
+	exit  map[*ssa.Function]map[string]bool // ... at every return
+	ret   map[*ssa.Function]map[int]bool    // result indices always carrying it
+	paths map[string]bool
+}
+
+type c43JS struct {
+	c    *an.Ctx
+	t    c43Type
+	e    *c43Eng
+	univ []*ssa.Function
+	in   map[*ssa.Function]bool
+}
+
+type c43Site struct {
+	fn   *ssa.Function
+	call *ssa.Call
+}
+
+func (js *c43JS) isMethod(g *ssa.Function) bool {
+	return len(g.Params) > 0 && c43RecvNamed(g) == js.t.named.Obj()
+}
+
+// calleeIn: the function of the universe a call of g enters (methods only on g's own receiver).
+func (js *c43JS) calleeIn(g *ssa.Function, call ssa.CallInstruction) *ssa.Function {
+	if call.Common().IsInvoke() {
+		return nil
+	}
+	h := an.Callee(call).Static
+	if h == nil {
+		return nil
+	}
+	if h.Origin() != nil {
+		h = h.Origin()
+	}
+	if !js.in[h] || h == g {
+		return nil
+	}
+	if js.isMethod(h) {
+		r := an.Recv(call)
+		if !js.isMethod(g) || r == nil || !an.SameObj(r, g.Params[0]) {
+			return nil
+		}
+	}
+	return h
+}
+
+func (js *c43JS) sitesOf(h *ssa.Function) []c43Site {
+	var out []c43Site
+	for _, g := range js.univ {
+		for _, cl := range an.AllCalls(g) {
+			if cv := an.CallValue(cl); cv != nil && js.calleeIn(g, cl) == h {
+				out = append(out, c43Site{g, cv})
+			}
+		}
+	}
+	return out
+}
+
+// recvPath: the field path of an address/value below g's receiver ("" if it is not).
+func (js *c43JS) recvPath(g *ssa.Function, v ssa.Value) string {
+	if !js.isMethod(g) {
+		return ""
+	}
+	root, path := c43Path(v)
+	if root != ssa.Value(g.Params[0]) {
+		return ""
+	}
+	return path
+}
+
+func c43Related(p, q string) bool {
+	return p == q || strings.HasPrefix(p, q+".") || strings.HasPrefix(q, p+".")
+}
+
+// writes: g (or a universe method it calls on the same receiver) stores into a receiver path related to P.
+func (js *c43JS) writes(g *ssa.Function, P string, depth int) bool {
+	found := false
+	an.Instrs(g, func(in ssa.Instruction) {
+		if st, ok := in.(*ssa.Store); ok {
+			if q := js.recvPath(g, st.Addr); q != "" && c43Related(q, P) {
+				found = true
+			}
+		}
+	})
+	if found || depth > 3 {
+		return found
+	}
+	for _, cl := range an.AllCalls(g) {
+		if h := js.calleeIn(g, cl); h != nil && js.isMethod(h) && js.writes(h, P, depth+1) {
+			return true
+		}
+	}
+	return false
+}
+
+// originsKills: the instructions of g after which the receiver path P holds the
+// value, and those after which it may hold something else.
+func (h *c43Hold) originsKills(g *ssa.Function, P string) (orig, kill []ssa.Instruction) {
+	js := h.js
+	al := h.vals[g]
+	an.Instrs(g, func(in ssa.Instruction) {
+		switch x := in.(type) {
+		case *ssa.Store:
+			q := js.recvPath(g, x.Addr)
+			if q == "" || !c43Related(q, P) {
+				return
+			}
+			if q == P && al[x.Val] {
+				orig = append(orig, x)
+				return
+			}
+			// whole-struct store of a composite literal whose field is the value
+			if strings.HasPrefix(P, q+".") && !strings.Contains(P[len(q)+1:], ".") {
+				if u, ok := x.Val.(*ssa.UnOp); ok && u.Op == token.MUL {
+					if a, ok := u.X.(*ssa.Alloc); ok {
+						n, good := 0, false
+						for _, ref := range *a.Referrers() {
+							fa, ok := ref.(*ssa.FieldAddr)
+							if !ok {
+								continue
+							}
+							if f, _ := an.FieldOf(fa); f == nil || f.Name() != P[len(q)+1:] {
+								continue
+							}
+							for _, r2 := range *fa.Referrers() {
+								if fs, ok := r2.(*ssa.Store); ok && fs.Addr == ssa.Value(fa) {
+									n++
+									good = al[fs.Val] && an.Dominates(fs, x)
+								}
+							}
+						}
+						if n == 1 && good {
+							orig = append(orig, x)
+							return
+						}
+					}
+				}
+			}
+			kill = append(kill, x)
+		case *ssa.Call:
+			callee := js.calleeIn(g, x)
+			if callee == nil || !js.isMethod(callee) {
+				return
+			}
+			if h.exit[callee][P] {
+				orig = append(orig, x)
+			} else if js.writes(callee, P, 0) {
+				kill = append(kill, x)
+			}
+		}
+	})
+	return
+}
+
+// holdsAt: at site (before it executes) the receiver path P of g holds the value.
+func (h *c43Hold) holdsAt(g *ssa.Function, P string, site ssa.Instruction) bool {
+	orig, kill := h.originsKills(g, P)
+	if !h.entry[g][P] && !(len(orig) > 0 && an.MustPrecede(g, site, orig)) {
+		return false
+	}
+	blocked := map[ssa.Instruction]bool{}
+	for _, o := range orig {
+		blocked[o] = true
+	}
+	for _, k := range kill {
+		if k == site {
+			continue
+		}
+		if an.Reaches(g, k, site, nil, blocked) {
+			return false
+		}
+	}
+	return true
+}
+
+func (h *c43Hold) compute() {
+	js := h.js
+	h.vals = map[*ssa.Function]map[ssa.Value]bool{}
+	h.entry = map[*ssa.Function]map[string]bool{}
+	h.exit = map[*ssa.Function]map[string]bool{}
+	h.ret = map[*ssa.Function]map[int]bool{}
+	h.paths = map[string]bool{}
+	for _, g := range js.univ {
+		h.vals[g] = map[ssa.Value]bool{}
+		h.entry[g] = map[string]bool{}
+		h.exit[g] = map[string]bool{}
+		h.ret[g] = map[int]bool{}
+	}
+	size := func() int {
+		n := len(h.paths)
+		for _, g := range js.univ {
+			n += len(h.vals[g]) + len(h.entry[g]) + len(h.exit[g]) + len(h.ret[g])
+		}
+		return n
+	}
+	for round := 0; round < 10; round++ {
+		before := size()
+		for _, g := range js.univ {
+			var set []ssa.Value
+			set = append(set, h.seed[g]...)
+			for v := range h.vals[g] {
+				set = append(set, v)
+			}
+			sites := js.sitesOf(g)
+			// parameters: the value at every call site
+			for i, p := range g.Params {
+				all := len(sites) > 0
+				for _, s := range sites {
+					if i >= len(s.call.Call.Args) || !h.vals[s.fn][s.call.Call.Args[i]] {
+						all = false
+					}
+				}
+				if all {
+					set = append(set, p)
+				}
+			}
+			// receiver paths at entry: held at every call site
+			for _, P := range c43SortedSet(h.paths) {
+				all := len(sites) > 0 && js.isMethod(g)
+				for _, s := range sites {
+					if !h.holdsAt(s.fn, P, s.call) {
+						all = false
+					}
+				}
+				if all {
+					h.entry[g][P] = true
+				}
+			}
+			// results of universe calls
+			for _, cl := range an.AllCalls(g) {
+				if callee := js.calleeIn(g, cl); callee != nil {
+					for k := range h.ret[callee] {
+						set = append(set, an.Result(cl, k)...)
+					}
+				}
+			}
+			h.vals[g] = an.Aliases(set...)
+			// stores of the value below the receiver make a path known; loads of held paths are holders
+			for changed := true; changed; {
+				changed = false
+				an.Instrs(g, func(in ssa.Instruction) {
+					if st, ok := in.(*ssa.Store); ok {
+						if q := js.recvPath(g, st.Addr); q != "" {
+							if h.vals[g][st.Val] {
+								h.paths[q] = true
+							}
+							if u, ok := st.Val.(*ssa.UnOp); ok && u.Op == token.MUL {
+								if a, ok := u.X.(*ssa.Alloc); ok {
+									for _, ref := range *a.Referrers() {
+										if fa, ok := ref.(*ssa.FieldAddr); ok {
+											for _, r2 := range *fa.Referrers() {
+												if fs, ok := r2.(*ssa.Store); ok && fs.Addr == ssa.Value(fa) && h.vals[g][fs.Val] {
+													f, _ := an.FieldOf(fa)
+													h.paths[q+"."+f.Name()] = true
+												}
+											}
+										}
+									}
+								}
+							}
+						}
+					}
+				})
+				an.Instrs(g, func(in ssa.Instruction) {
+					v, ok := in.(ssa.Value)
+					if !ok || h.vals[g][v] {
+						return
+					}
+					switch x := v.(type) {
+					case *ssa.UnOp:
+						if x.Op != token.MUL {
+							return
+						}
+						if _, ok := x.X.(*ssa.FieldAddr); !ok {
+							return
+						}
+					case *ssa.Field:
+					default:
+						return
+					}
+					P := js.recvPath(g, v)
+					if P == "" || !h.paths[P] {
+						return
+					}
+					if h.holdsAt(g, P, in) {
+						set = append(set, v)
+						h.vals[g] = an.Aliases(set...)
+						changed = true
+					}
+				})
+			}
+			// results / exit paths
+			rets := an.Returns(g)
+			for k := 0; k < g.Signature.Results().Len(); k++ {
+				all := len(rets) > 0
+				for _, r := range rets {
+					if k >= len(r.Results) || !h.vals[g][r.Results[k]] {
+						all = false
+					}
+				}
+				if all {
+					h.ret[g][k] = true
+				}
+			}
+			if js.isMethod(g) {
+				for _, P := range c43SortedSet(h.paths) {
+					all := len(rets) > 0
+					for _, r := range rets {
+						if !h.holdsAt(g, P, r) {
+							all = false
+						}
+					}
+					if all {
+						h.exit[g][P] = true
+					}
+				}
+			}
+		}
+		if size() == before {
+			break
+		}
+	}
+}
+
+func c43SortedSet(m map[string]bool) []string {
+	var ks []string
+	for k := range m {
+		ks = append(ks, k)
+	}
+	sort.Strings(ks)
+	return ks
+}
+
+const (
+	c43EOF = "json-eof"    // errors.Is(<the Decode error>, …) returned true
+	c43ENL = "json-errnil" // the Decode error is nil
+)
+
 func c43JSON(c *an.Ctx, t c43Type) {
 	fn := t.next
 	name := an.FuncName(fn)
-	recv := fn.Params[0]
 	if !c.Need(len(t.bools) == 1, "JSONIter has one bool (done) field") {
 		return
 	}
 	done := t.bools[0]
-	// the Decode call: in Next, or in a package-local function Next calls that returns
-	// (decoded value, Decode's error) — then that call is the decode event in Next
-	dfn := fn
-	dec := an.Calls(fn, an.M("encoding/json", "Decoder", "Decode"))
-	var hcall *ssa.Call
-	if len(dec) == 0 {
-		for _, cl := range an.AllCalls(fn) {
-			cv := an.CallValue(cl)
-			g := an.Callee(cl).Static
-			if g != nil && g.Origin() != nil {
-				g = g.Origin()
-			}
-			if cv == nil || g == nil || g == fn || len(g.Blocks) == 0 || g.Pkg != fn.Pkg {
+	e := c43BareEng(c, t, "")
+	e.done = done
+	js := &c43JS{c: c, t: t, e: e, in: map[*ssa.Function]bool{}}
+	// universe: Next, the same-receiver methods it calls, and plain package-local functions they call
+	var grow func(g *ssa.Function, depth int)
+	grow = func(g *ssa.Function, depth int) {
+		if js.in[g] || depth > 4 {
+			return
+		}
+		js.in[g] = true
+		js.univ = append(js.univ, g)
+		for _, cl := range an.AllCalls(g) {
+			if cl.Common().IsInvoke() {
 				continue
 			}
-			if ds := an.Calls(g, an.M("encoding/json", "Decoder", "Decode")); len(ds) > 0 {
-				dfn, dec, hcall = g, ds, cv
+			h := an.Callee(cl).Static
+			if h == nil {
+				continue
 			}
+			if h.Origin() != nil {
+				h = h.Origin()
+			}
+			if len(h.Blocks) == 0 || h.Pkg != fn.Pkg || h == g {
+				continue
+			}
+			if js.isMethod(h) {
+				if r := an.Recv(cl); !js.isMethod(g) || r == nil || !an.SameObj(r, g.Params[0]) {
+					continue
+				}
+			} else if h.Signature.Recv() != nil {
+				continue
+			}
+			grow(h, depth+1)
+		}
+	}
+	grow(fn, 0)
+	sort.SliceStable(js.univ, func(i, k int) bool { return an.FuncName(js.univ[i]) < an.FuncName(js.univ[k]) })
+	// the Decode call
+	var dfn *ssa.Function
+	var dec []ssa.CallInstruction
+	for _, g := range js.univ {
+		if ds := an.Calls(g, an.M("encoding/json", "Decoder", "Decode")); len(ds) > 0 {
+			dfn = g
+			dec = append(dec, ds...)
 		}
 	}
 	if !c.Need(len(dec) == 1 && an.CallValue(dec[0]) != nil, "one json.Decoder.Decode call in JSONIter.Next (or in a package-local function it calls)") {
 		return
 	}
 	d := dec[0]
-	// event: the instruction of Next at which the decode happens
-	var ev ssa.Instruction = d
-	if hcall != nil {
-		ev = hcall
+	// events: the instruction of each function at which the decode happens
+	hasEv := map[*ssa.Function]bool{dfn: true}
+	for changed := true; changed; {
+		changed = false
+		for _, g := range js.univ {
+			for _, cl := range an.AllCalls(g) {
+				if h := js.calleeIn(g, cl); h != nil && hasEv[h] && !hasEv[g] {
+					hasEv[g] = true
+					changed = true
+				}
+			}
+		}
 	}
-	dl := an.LoadsOfFieldNamed(fn, recv, done)
-	c.Check(an.GuardedBy(fn, nil, ev, an.BoolEdges(fn, dl, false)), "O6", "R-DOM", name, "Decode<=!done-flag", ev.Pos(),
+	evIn := func(g *ssa.Function) []ssa.Instruction {
+		var out []ssa.Instruction
+		if g == dfn {
+			out = append(out, d)
+		}
+		for _, cl := range an.AllCalls(g) {
+			if h := js.calleeIn(g, cl); h != nil && hasEv[h] {
+				out = append(out, cl)
+			}
+		}
+		return out
+	}
+	evs := evIn(fn)
+	if !c.Need(len(evs) > 0, "the decode event in JSONIter.Next") {
+		return
+	}
+	ev := evs[0]
+	// Decode only where done is false (decided where Decode is, or at every call site of that function)
+	var guarded func(g *ssa.Function, site ssa.Instruction, depth int) bool
+	guarded = func(g *ssa.Function, site ssa.Instruction, depth int) bool {
+		if js.isMethod(g) && e.closure[g] {
+			if e.guardedSite(g, site, c43NOTD, 0) {
+				return true
+			}
+		}
+		if depth > 3 || g == fn {
+			return false
+		}
+		sites := js.sitesOf(g)
+		for _, s := range sites {
+			if !guarded(s.fn, s.call, depth+1) {
+				return false
+			}
+		}
+		return len(sites) > 0
+	}
+	c.Check(guarded(dfn, d, 0), "O6", "R-DOM", name, "Decode<=!done-flag", ev.Pos(),
 		"Decode is only called where done is false", "Decode is called although the iterator is done/closed: values are read past the end or after Close")
-	errs := an.ErrResult(d)
-	var decoded []ssa.Value // the decoded value as seen in Next
 	// the destination of Decode is a fresh zero value of this call (encoding/json merges into a
 	// non-zero destination: absent fields keep old values, slices/maps/pointers are reused), never
 	// storage that survives between calls (a receiver field, a captured variable)
-	{
-		dst := an.Args(d)[0]
-		okFresh := true
-		why := ""
-		var cells []*ssa.Alloc
-		for _, r := range an.Roots(dst, nil) {
-			a, ok := r.(*ssa.Alloc)
-			if !ok || a.Parent() != dfn {
+	dst := an.Args(d)[0]
+	okFresh := true
+	why := ""
+	var cells []*ssa.Alloc
+	for _, r := range an.Roots(dst, nil) {
+		a, ok := r.(*ssa.Alloc)
+		if !ok || a.Parent() != dfn {
+			okFresh = false
+			why = "decodes into " + an.PathOf(r)
+			continue
+		}
+		cells = append(cells, a)
+		for _, ref := range *a.Referrers() {
+			if st, ok := ref.(*ssa.Store); ok && st.Addr == ssa.Value(a) && an.Reaches(dfn, st, d.(ssa.Instruction), nil, nil) {
 				okFresh = false
-				why = "decodes into " + an.PathOf(r)
-				continue
-			}
-			cells = append(cells, a)
-			for _, ref := range *a.Referrers() {
-				if st, ok := ref.(*ssa.Store); ok && st.Addr == ssa.Value(a) && an.Reaches(dfn, st, d.(ssa.Instruction), nil, nil) {
-					okFresh = false
-					why = "the destination is written before Decode"
-				}
+				why = "the destination is written before Decode"
 			}
 		}
-		c.Check(okFresh && len(cells) > 0, "O6", "R-FLOW", an.FuncName(dfn), "Decode(&fresh-zero-value)", d.Pos(),
-			"every Next decodes into a fresh zero value",
-			"Decode's destination is not a fresh per-call zero value ("+why+"): encoding/json merges into the previous element, so a value that omits a field inherits it from an earlier one and previously yielded slices/maps/pointers are overwritten — the yielded list differs from the element-wise decode")
-		isDecodedLoad := func(v ssa.Value) bool {
-			u, ok := v.(*ssa.UnOp)
-			if !ok || u.Op != token.MUL {
-				return false
-			}
+	}
+	c.Check(okFresh && len(cells) > 0, "O6", "R-FLOW", an.FuncName(dfn), "Decode(&fresh-zero-value)", d.Pos(),
+		"every Next decodes into a fresh zero value",
+		"Decode's destination is not a fresh per-call zero value ("+why+"): encoding/json merges into the previous element, so a value that omits a field inherits it from an earlier one and previously yielded slices/maps/pointers are overwritten — the yielded list differs from the element-wise decode")
+	// holders of the decoded value and of the Decode error
+	valH := &c43Hold{js: js, seed: map[*ssa.Function][]ssa.Value{}}
+	an.Instrs(dfn, func(in ssa.Instruction) {
+		if u, ok := in.(*ssa.UnOp); ok && u.Op == token.MUL {
 			for _, a := range cells {
 				if u.X == ssa.Value(a) && an.Dominates(d.(ssa.Instruction), u) {
-					return true
+					valH.seed[dfn] = append(valH.seed[dfn], u)
 				}
 			}
-			return false
 		}
-		if hcall != nil {
-			// the helper hands on exactly (decoded value, Decode's error)
-			vi, ei := -1, -1
-			okH := true
-			for _, r := range an.Returns(dfn) {
-				for k, rv := range r.Results {
-					switch {
-					case isDecodedLoad(rv):
-						if vi >= 0 && vi != k {
-							okH = false
-						}
-						vi = k
-					case an.Aliases(errs...)[rv]:
-						if ei >= 0 && ei != k {
-							okH = false
-						}
-						ei = k
-					default:
-						okH = false
-					}
-				}
-			}
-			if !c.Check(okH && vi >= 0 && ei >= 0, "O6", "R-FLOW", an.FuncName(dfn), "return=(decoded,Decode-error)", dfn.Pos(),
-				"the decode helper returns the decoded value and the Decode error unchanged",
-				"the decode helper does not return exactly (the value it decoded, the error of Decode): Next judges end-of-input and errors on something else than the decoder's result") {
-				return
-			}
-			decoded = an.Result(hcall, vi)
-			errs = an.Result(hcall, ei)
-		}
-		// the yielded value is that destination, read after Decode
-		if okFresh {
-			nVal := 0
-			okVal := true
-			an.Instrs(fn, func(in ssa.Instruction) {
+	})
+	valH.compute()
+	errH := &c43Hold{js: js, seed: map[*ssa.Function][]ssa.Value{dfn: an.ErrResult(d)}}
+	errH.compute()
+	// the yielded value is that destination, read after Decode
+	if okFresh {
+		nVal := 0
+		okVal := true
+		for _, g := range js.univ {
+			an.Instrs(g, func(in ssa.Instruction) {
 				st, ok := in.(*ssa.Store)
 				if !ok {
 					return
 				}
-				n, _ := an.FieldName(st.Addr)
-				if n != "Val" {
+				if n, _ := an.FieldName(st.Addr); n != "Val" {
 					return
 				}
 				nVal++
-				good := isDecodedLoad(st.Val)
-				if hcall != nil {
-					good = an.Aliases(decoded...)[st.Val]
-				}
-				okVal = okVal && good
-			})
-			c.Check(okVal && nVal > 0, "O6", "R-FLOW", name, "res.Val=decoded", ev.Pos(), "the yielded value is the freshly decoded one",
-				"the value stored for Val() is not the destination of this call's Decode (read after it): stale or foreign values are yielded")
-		}
-	}
-	// values that hold the Decode error: the result itself and loads of a location it was stored to
-	var errHolders []ssa.Value
-	errHolders = append(errHolders, errs...)
-	an.Instrs(fn, func(in ssa.Instruction) {
-		if st, ok := in.(*ssa.Store); ok && an.Aliases(errs...)[st.Val] {
-			pth := an.PathOf(st.Addr)
-			an.Instrs(fn, func(in2 ssa.Instruction) {
-				if u, ok := in2.(*ssa.UnOp); ok && u.Op == token.MUL && an.PathOf(u.X) == pth && an.Dominates(st, u) {
-					errHolders = append(errHolders, u)
-				}
+				okVal = okVal && valH.vals[g][st.Val]
 			})
 		}
-	})
-	// EOF edges
-	eofT := an.CallEdges(fn, an.M("errors", "", "Is"), 0, func(v ssa.Value) bool { return an.Aliases(errHolders...)[v] }, true)
-	var doneTrue []ssa.Instruction
-	for _, st := range an.StoresToFieldNamed(fn, recv, done) {
-		if c43IsConstBool(st.Val, true) {
-			doneTrue = append(doneTrue, st)
-		}
+		c.Check(okVal && nVal > 0, "O6", "R-FLOW", name, "res.Val=decoded", ev.Pos(), "the yielded value is the freshly decoded one",
+			"the value stored for Val() is not the destination of this call's Decode (read after it): stale or foreign values are yielded")
 	}
-	blocked := map[ssa.Instruction]bool{}
-	for _, s := range doneTrue {
-		blocked[s] = true
+	// facts about the Decode error
+	e.extra[c43EOF] = func(g *ssa.Function, atom ssa.Value) (bool, bool) {
+		call, ok := an.IsCallTo(atom, an.M("errors", "", "Is"))
+		if !ok || len(call.Call.Args) != 2 {
+			return false, false
+		}
+		return errH.vals[g][call.Call.Args[0]], false
+	}
+	e.extra[c43ENL] = func(g *ssa.Function, atom ssa.Value) (bool, bool) {
+		b, ok := atom.(*ssa.BinOp)
+		if !ok || (b.Op != token.EQL && b.Op != token.NEQ) {
+			return false, false
+		}
+		x := b.X
+		if an.IsNilConst(b.X) {
+			x = b.Y
+		} else if !an.IsNilConst(b.Y) {
+			return false, false
+		}
+		if !errH.vals[g][x] {
+			return false, false
+		}
+		return b.Op == token.EQL, b.Op == token.NEQ
+	}
+	doneStores := func(g *ssa.Function) map[ssa.Instruction]bool {
+		out := map[ssa.Instruction]bool{}
+		if !js.isMethod(g) {
+			return out
+		}
+		for _, st := range an.StoresToFieldNamed(g, g.Params[0], done) {
+			if c43IsConstBool(st.Val, true) {
+				out[st] = true
+			}
+		}
+		return out
+	}
+	boolHelper := func(g *ssa.Function, v ssa.Value) *ssa.Function {
+		h, _ := e.helperOf(g, v)
+		if h == nil {
+			return nil
+		}
+		if rs := h.Signature.Results(); rs.Len() != 1 || !types.Identical(rs.At(0).Type().Underlying(), types.Typ[types.Bool]) {
+			return nil
+		}
+		return h
+	}
+	// falseRecorded: every return of g (after start) that may yield false has stored done=true
+	var falseRecorded func(g *ssa.Function, start ssa.Instruction, depth int) bool
+	falseRecorded = func(g *ssa.Function, start ssa.Instruction, depth int) bool {
+		for _, r := range an.Returns(g) {
+			if len(r.Results) != 1 || (start != nil && !an.Reaches(g, start, r, nil, nil)) || c43IsConstBool(r.Results[0], true) {
+				continue
+			}
+			if !an.Reaches(g, start, r, nil, doneStores(g)) {
+				continue
+			}
+			if h := boolHelper(g, r.Results[0]); h != nil && depth < 4 && falseRecorded(h, nil, depth+1) {
+				continue
+			}
+			return false
+		}
+		return true
+	}
+	// trueSafe: every return of g (after start) that may yield true has the error nil (or EOF handled) or done stored
+	var trueSafe func(g *ssa.Function, start ssa.Instruction, depth int) bool
+	trueSafe = func(g *ssa.Function, start ssa.Instruction, depth int) bool {
+		for _, r := range an.Returns(g) {
+			if len(r.Results) != 1 || (start != nil && !an.Reaches(g, start, r, nil, nil)) || c43IsConstBool(r.Results[0], false) {
+				continue
+			}
+			cut := e.edges(g, c43ENL).Union(e.edges(g, c43EOF))
+			if !an.Reaches(g, start, r, cut, doneStores(g)) {
+				continue
+			}
+			if h := boolHelper(g, r.Results[0]); h != nil && depth < 4 && trueSafe(h, nil, depth+1) {
+				continue
+			}
+			return false
+		}
+		return true
 	}
 	nEOF := 0
 	for _, r := range an.Returns(fn) {
-		if len(r.Results) != 1 || !an.Reaches(fn, ev, r, nil, nil) {
+		r := r
+		if len(r.Results) != 1 || c43IsConstBool(r.Results[0], true) {
 			continue
 		}
-		if c43IsConstBool(r.Results[0], false) {
-			nEOF++
-			ok := len(eofT) > 0 && !an.Reaches(fn, ev, r, eofT, nil)
-			c.Check(ok, "O6", "R-DOM", name, "return-false<=EOF", r.Pos(), "after Decode the iteration ends only on io.EOF",
-				"Next() returns false after Decode on a path where the error is not io.EOF: a decodable value or a decode error is swallowed")
-			ok2 := !an.Reaches(fn, ev, r, nil, blocked)
-			c.Check(ok2, "O6", "R-POST", name, "EOF=>done-flag", r.Pos(), "end of input is recorded in done", "end of input is not recorded in done: Decode is called again after EOF")
+		after := false
+		okEOF := true
+		for _, x := range evs {
+			x := x
+			if !an.Reaches(fn, x, r, nil, nil) {
+				continue
+			}
+			after = true
+			guard := func(s an.EdgeSet) bool { return len(s) > 0 && an.GuardedBy(fn, x, r, s) }
+			okEOF = okEOF && e.valueImplies(fn, r.Results[0], false, guard, c43EOF, 0)
 		}
+		if !after {
+			continue
+		}
+		nEOF++
+		c.Check(okEOF, "O6", "R-DOM", name, "return-false<=EOF", r.Pos(), "after Decode the iteration ends only on io.EOF",
+			"Next() returns false after Decode on a path where the error is not io.EOF: a decodable value or a decode error is swallowed")
 	}
 	c.Min("O6 end-of-input returns in JSONIter.Next", nEOF, 1)
-	// a decode error (non-nil) sets done before returning true: walk only the
-	// paths on which the error is not known to be nil
-	var errLoads []ssa.Value
-	an.Instrs(fn, func(in ssa.Instruction) {
-		if st, ok := in.(*ssa.Store); ok && an.Aliases(errs...)[st.Val] {
-			pth := an.PathOf(st.Addr)
-			an.Instrs(fn, func(in2 ssa.Instruction) {
-				if u, ok := in2.(*ssa.UnOp); ok && u.Op == token.MUL && an.PathOf(u.X) == pth && an.Dominates(st, u) {
-					errLoads = append(errLoads, u)
-				}
-			})
-		}
-	})
-	isNil := an.NilEdges(fn, errs, true).Union(an.NilEdges(fn, errLoads, true))
-	okErr := true
-	for _, r := range an.Returns(fn) {
-		if len(r.Results) == 1 && !c43IsConstBool(r.Results[0], false) && an.Reaches(fn, ev, r, isNil.Union(eofT), blocked) {
-			okErr = false
-		}
+	okRec, okErr := true, true
+	for _, x := range evs {
+		okRec = okRec && falseRecorded(fn, x, 0)
+		okErr = okErr && trueSafe(fn, x, 0)
 	}
+	c.Check(okRec, "O6", "R-POST", name, "EOF=>done-flag", ev.Pos(), "end of input is recorded in done", "end of input is not recorded in done: Decode is called again after EOF")
 	c.Check(okErr, "O6", "R-POST", name, "err=>done-flag", ev.Pos(), "a decode error stops the iteration (done set)",
 		"Next() can return true after a decode error without setting done: the iterator keeps decoding a broken stream and can yield garbage or loop forever")
 	// Close: done = true on every path and the reader is closed when it is an io.Closer
@@ -834,6 +1304,7 @@ type c43Eng struct {
 	doneOK       bool
 	limit, count string
 	methods      []*ssa.Function
+	nmethods     []*ssa.Function // declared methods of the nested state structs (t.nested)
 	memoRet      map[string]int
 	memoEdges    map[string]an.EdgeSet
 	memoHas      map[*ssa.Function]int
@@ -841,9 +1312,13 @@ type c43Eng struct {
 	extra        map[string]func(fn *ssa.Function, atom ssa.Value) (bool, bool)
 }
 
-func c43NewEng(c *an.Ctx, t c43Type) *c43Eng {
-	e := &c43Eng{c: c, t: t, inner: t.inner[0], memoRet: map[string]int{}, memoEdges: map[string]an.EdgeSet{}, memoHas: map[*ssa.Function]int{}, extra: map[string]func(*ssa.Function, ssa.Value) (bool, bool){}}
+// c43BareEng: the fact engine over Next and the same-receiver methods it calls.
+func c43BareEng(c *an.Ctx, t c43Type, inner string) *c43Eng {
+	e := &c43Eng{c: c, t: t, inner: inner, memoRet: map[string]int{}, memoEdges: map[string]an.EdgeSet{}, memoHas: map[*ssa.Function]int{}, extra: map[string]func(*ssa.Function, ssa.Value) (bool, bool){}}
 	e.methods = c.P.MethodsG(t.named)
+	for _, via := range c43SortedKeys(t.nested) {
+		e.nmethods = append(e.nmethods, c.P.MethodsG(t.nested[via])...)
+	}
 	// the same-receiver methods Next (transitively) calls
 	e.closure = map[*ssa.Function]bool{t.next: true}
 	for changed := true; changed; {
@@ -859,6 +1334,11 @@ func c43NewEng(c *an.Ctx, t c43Type) *c43Eng {
 			}
 		}
 	}
+	return e
+}
+
+func c43NewEng(c *an.Ctx, t c43Type) *c43Eng {
+	e := c43BareEng(c, t, t.inner[0])
 	if !e.hasInner(t.next) {
 		c.Problem("%s: no call of the inner Next() in Next or in the same-receiver methods it calls", an.FuncName(t.next))
 		return nil
@@ -904,10 +1384,11 @@ func c43NewEng(c *an.Ctx, t c43Type) *c43Eng {
 		}
 	}
 	// limit / count roles: count = int field stored in Next's closure, limit = the other one
-	for _, f := range t.ints {
+	slots := append(append([]string{}, t.ints...), t.nints...)
+	for _, f := range slots {
 		stored := false
-		for _, m := range e.methods {
-			if e.closure[m] && len(an.StoresToFieldNamed(m, m.Params[0], f)) > 0 {
+		for _, m := range e.all() {
+			if e.closure[m] && len(e.slotStores(m, f)) > 0 {
 				stored = true
 			}
 		}
@@ -918,8 +1399,8 @@ func c43NewEng(c *an.Ctx, t c43Type) *c43Eng {
 			e.count = f
 		}
 	}
-	for _, f := range t.ints {
-		if f != e.count && e.count != "" {
+	for _, f := range slots {
+		if f != e.count && e.count != "" && c43SlotOwner(f) == c43SlotOwner(e.count) {
 			if e.limit != "" {
 				c.Problem("%s: two int fields never stored in Next: limit role ambiguous", c43TypeName(t))
 			}
@@ -949,7 +1430,157 @@ func (e *c43Eng) helperOf(fn *ssa.Function, v ssa.Value) (*ssa.Function, *ssa.Ca
 			}
 		}
 	}
+	// a method of a nested state struct, called on that field of the same receiver
+	// (value receiver: the loaded field; pointer receiver: its address)
+	for _, m := range e.nmethods {
+		if m == g && m != fn {
+			r := an.Recv(call)
+			if r == nil {
+				continue
+			}
+			root, path := c43Path(r)
+			if root != ssa.Value(fn.Params[0]) {
+				continue
+			}
+			if c43RecvNamed(fn) == e.t.named.Obj() && path != "" && e.t.nested[path[1:]] != nil && e.t.nested[path[1:]].Obj() == c43RecvNamed(m) {
+				return m, call
+			}
+			if c43RecvNamed(fn) == c43RecvNamed(m) && path == "" {
+				return m, call
+			}
+		}
+	}
 	return nil, nil
+}
+
+func (e *c43Eng) all() []*ssa.Function {
+	return append(append([]*ssa.Function{}, e.methods...), e.nmethods...)
+}
+
+func c43SortedKeys(m map[string]*types.Named) []string {
+	var ks []string
+	for k := range m {
+		ks = append(ks, k)
+	}
+	sort.Strings(ks)
+	return ks
+}
+
+// c43RecvNamed: the (origin) named type of fn's receiver.
+func c43RecvNamed(fn *ssa.Function) *types.TypeName {
+	if fn.Signature.Recv() == nil {
+		return nil
+	}
+	t := fn.Signature.Recv().Type()
+	if p, ok := t.(*types.Pointer); ok {
+		t = p.Elem()
+	}
+	if n, ok := t.(*types.Named); ok {
+		return n.Origin().Obj()
+	}
+	return nil
+}
+
+// c43Path: the root object and the field path (".a.b") a value or address is
+// reached by; loads are transparent, a local holding only a parameter is that parameter.
+func c43Path(v ssa.Value) (ssa.Value, string) {
+	switch x := v.(type) {
+	case *ssa.FieldAddr:
+		f, _ := an.FieldOf(x)
+		r, p := c43Path(x.X)
+		return r, p + "." + f.Name()
+	case *ssa.Field:
+		f, _ := an.FieldOf(x)
+		r, p := c43Path(x.X)
+		return r, p + "." + f.Name()
+	case *ssa.UnOp:
+		if x.Op == token.MUL {
+			return c43Path(x.X)
+		}
+	case *ssa.Alloc:
+		var only ssa.Value
+		n := 0
+		for _, ref := range *x.Referrers() {
+			if st, ok := ref.(*ssa.Store); ok && st.Addr == ssa.Value(x) {
+				n++
+				only = st.Val
+			}
+		}
+		if pa, ok := only.(*ssa.Parameter); ok && n == 1 {
+			return pa, ""
+		}
+	}
+	return v, ""
+}
+
+func c43SlotOwner(slot string) string {
+	if i := strings.LastIndex(slot, "."); i >= 0 {
+		return slot[:i]
+	}
+	return ""
+}
+
+// slotPath: the field path under which fn's receiver reaches the slot ("" if it cannot).
+func (e *c43Eng) slotPath(fn *ssa.Function, slot string) string {
+	if len(fn.Params) == 0 || slot == "" {
+		return ""
+	}
+	rn := c43RecvNamed(fn)
+	if rn == e.t.named.Obj() {
+		return "." + slot
+	}
+	if via := c43SlotOwner(slot); via != "" && e.t.nested[via] != nil && e.t.nested[via].Obj() == rn {
+		return slot[len(via):]
+	}
+	return ""
+}
+
+// slotLoad: v reads the slot of fn's receiver.
+func (e *c43Eng) slotLoad(fn *ssa.Function, v ssa.Value, slot string) bool {
+	want := e.slotPath(fn, slot)
+	if want == "" {
+		return false
+	}
+	switch x := v.(type) {
+	case *ssa.UnOp:
+		if x.Op != token.MUL {
+			return false
+		}
+		if _, ok := x.X.(*ssa.FieldAddr); !ok {
+			return false
+		}
+	case *ssa.Field:
+	default:
+		return false
+	}
+	root, path := c43Path(v)
+	return root == ssa.Value(fn.Params[0]) && path == want
+}
+
+// slotStores: the stores in fn that persist into the slot of fn's receiver (a
+// store into a value receiver's copy does not count).
+func (e *c43Eng) slotStores(fn *ssa.Function, slot string) []*ssa.Store {
+	want := e.slotPath(fn, slot)
+	if want == "" {
+		return nil
+	}
+	if _, ok := fn.Params[0].Type().Underlying().(*types.Pointer); !ok {
+		return nil
+	}
+	var out []*ssa.Store
+	an.Instrs(fn, func(in ssa.Instruction) {
+		st, ok := in.(*ssa.Store)
+		if !ok {
+			return
+		}
+		if _, ok := st.Addr.(*ssa.FieldAddr); !ok {
+			return
+		}
+		if root, path := c43Path(st.Addr); root == ssa.Value(fn.Params[0]) && path == want {
+			out = append(out, st)
+		}
+	})
+	return out
 }
 
 // hasInner: fn performs the inner Next() itself or through same-receiver helpers.
@@ -1027,9 +1658,8 @@ func c43Strip(v ssa.Value) (ssa.Value, bool) {
 
 // relHolds: does the comparison (a op b), known to hold, establish the fact?
 func (e *c43Eng) relHolds(fn *ssa.Function, fact string, a, b ssa.Value, op token.Token) bool {
-	recv := fn.Params[0]
-	isCount := func(v ssa.Value) bool { return e.count != "" && an.LoadOfField(v, recv, e.count) }
-	isLimit := func(v ssa.Value) bool { return e.limit != "" && an.LoadOfField(v, recv, e.limit) }
+	isCount := func(v ssa.Value) bool { return e.count != "" && e.slotLoad(fn, v, e.count) }
+	isLimit := func(v ssa.Value) bool { return e.limit != "" && e.slotLoad(fn, v, e.limit) }
 	if _, ok := an.IntConst(a); ok {
 		a, b, op = b, a, an.SwapRel(op)
 	}
@@ -1208,7 +1838,7 @@ func (e *c43Eng) guardedSite(fn *ssa.Function, site ssa.Instruction, fact string
 		return false
 	}
 	n := 0
-	for _, m := range e.methods {
+	for _, m := range e.all() {
 		for _, cl := range an.AllCalls(m) {
 			cv := an.CallValue(cl)
 			if cv == nil {
@@ -1231,7 +1861,7 @@ func (e *c43Eng) checkYield() {
 	fn := t.next
 	name := an.FuncName(fn)
 	ob := "O3"
-	if len(t.ints) > 0 {
+	if t.limited() {
 		ob = "O2"
 	}
 	evs := e.events(fn)
@@ -1357,19 +1987,18 @@ func (e *c43Eng) checkLimit() {
 	nSt := 0
 	blocked := map[ssa.Instruction]bool{}
 	storing := map[*ssa.Function]bool{} // helpers that advance the counter on every path
-	for _, m := range e.methods {
+	for _, m := range e.all() {
 		if !e.closure[m] {
 			continue
 		}
-		recv := m.Params[0]
-		sts := an.StoresToFieldNamed(m, recv, count)
+		sts := e.slotStores(m, count)
 		for _, st := range sts {
 			nSt++
 			okStep := false
 			if b, ok := st.Val.(*ssa.BinOp); ok && b.Op == token.ADD {
-				if k, ok := an.IntConst(b.Y); ok && k == 1 && an.LoadOfField(b.X, recv, count) {
+				if k, ok := an.IntConst(b.Y); ok && k == 1 && e.slotLoad(m, b.X, count) {
 					okStep = true
-				} else if k, ok := an.IntConst(b.X); ok && k == 1 && an.LoadOfField(b.Y, recv, count) {
+				} else if k, ok := an.IntConst(b.X); ok && k == 1 && e.slotLoad(m, b.Y, count) {
 					okStep = true
 				}
 			}
